@@ -240,6 +240,8 @@ def main():
     def claimed(item, is_violation):
         rule = spec.get('claims')
         tags = item.get('tags')
+        if rule and not (set(rule) & {'exclude_tags', 'violation_tags', 'violation_require', 'disagreement_tags'}):
+            rule = rule.get(item.get('suite'))       # rules given per suite
         if not rule or tags is None:
             return True
         tags = set(tags)
